@@ -180,6 +180,13 @@ def run_stepwise(mod, prog, rep, tier):
             poisoned |= {x for x in loaded if isinstance(ns.get(x), Interp)}        # an interpreter that stopped half-way
             w = e.where or {"file": "?", "line": getattr(e.node, "lineno", 0), "function": "?", "construct": str(e.why)[:160]}
             rep.unk("ENGINE", w, "analysis left the modelled fragment: %s" % e.why)
+            tb = e.__traceback__
+            while tb is not None and tb.tb_next is not None:
+                tb = tb.tb_next
+            if tb is not None and tb.tb_frame.f_code.co_name == "<module>":
+                # raised by run() itself ("this is not the structure my rules read"): what follows in run() builds on it
+                rep.notes.append("run() stopped at line %d: %s" % (first + st.lineno - 1, e.why))
+                break
 
 
 def seed_regression(pid, root):
